@@ -11,6 +11,7 @@ import (
 	"go/types"
 	"sort"
 	"strings"
+	"sync"
 
 	"golang.org/x/tools/go/ssa"
 )
@@ -174,6 +175,7 @@ type Exec struct {
 	needSid       bool
 	needChr       bool
 	needCard      bool
+	axMu          sync.Mutex
 	closureFn     map[ssa.Value]*ssa.Function
 	iterName      map[ssa.Value]string
 	iterLoop      map[string]*ssa.BasicBlock
